@@ -472,6 +472,9 @@ def step (line : String) : String :=
   | "js-quote" :: rest => opJs "js-quote" rest
   | "js-unquote" :: rest => opJs "js-unquote" rest
   | "js-sanitize" :: rest => opJs "js-sanitize" rest
+  | "caclass" :: a :: b :: [] =>
+    let v : CAView := ⟨a == "1", b == "1"⟩
+    b2s (isRootCA v) ++ b2s (isSubCA v) ++ b2s (isSubscriberCert v)
   | "names" :: rest => opNames rest
   | "thr-val" :: rest => opThr "thr-val" rest
   | "thr-rc" :: rest => opThr "thr-rc" rest
